@@ -5,6 +5,7 @@ float, str, other object) and ALL integers n, m: exceptions are raised iff docum
 CPython's own parser) to the same tree as the fully parenthesised reference (?:P){lo,hi}[?], integer leaves compared
 by the solver.  Class forms (quantifiers.py) are proved textually equal to the method forms."""
 from .. import vcrun
+from . import _b1
 
 LEVEL = "proof"
 P = "pregex.core.pre.Pregex."
@@ -18,6 +19,10 @@ FUNCS += ["pregex.core.quantifiers." + c + ".__init__" for c in ("Optional", "In
 
 def run(rep, tier):
     vcrun.run_functions(rep, FUNCS, tier)
+    # the quantifiers group the operand by its inferred category and raise CannotBeRepeatedException off its repeatable flag:
+    # both VALUES are __infer_type's assumed contract
+    _b1.run(rep, tier, ["category", "flag", "total"], "category (is the operand an atom: (?:P) or P before the suffix) and repeatable flag "
+            "of every emitted text (a wrongly refused operand has no repetitions at all)")
     rep.trusted += ["R2 compositionality (placeholders)", "R3 quantifiers", "R4 grouping",
                     "assumed contract of Pregex.__infer_type (class invariant Inv; bounded stand-in B1, see C02/C09)",
                     "CPython re._parser (non-optimising alternation parser swapped in) as reader of emitted text",
